@@ -572,6 +572,17 @@ def query (x : Ctx) (q : String) : Q String := do
     let b ← qlift parseV; let r ← qr (evalV x b)
     if ¬ isOrd x.name then throw .unsup
     pure (ordStr (Seq.cmp l r))
+  | "mapget" => do
+    let n ← qlift num
+    let mut keys : List Bits := []
+    for _ in [0:n] do
+      let v ← qlift parseV
+      let bs ← qr (evalV x v)
+      keys := keys ++ [bs]
+    let s ← qlift parseS; let q ← qr (evalS x s)
+    -- inserting an equal key overwrites the value: the last equal key wins
+    let hits := (keys.zipIdx.filter fun (k, _) => k == q).map (·.2)
+    pure (match hits.getLast? with | some i => toString i | none => "none")
   | "iter" | "intoiter" => do
     let s ← qlift parseS; let bs ← qr (evalS x s)
     let r ← qres (seqRes (Iter.iter x.p c bs)); pure (codesStr r)
